@@ -15,7 +15,7 @@
 //!                property set k), ns (declared inside `namespace NS<i>`)
 //!   helper   : name:uses:calls:statics[:opts]   comma separated indices; a use may carry a shape letter (`3w` = inside a
 //!                while condition, see `SHAPES`); opts: r (returns int), d<uses> (parameters whose default value reads
-//!                these resources)
+//!                these resources), fd (declared before all definitions; also for entries)
 //!   entry    : name:stage:uses:calls:statics:x.y.z|-[:opts]   opts: i<list> (s_init globals touched), nt<k> (spelling of
 //!                the numthreads arguments: 1 = named constant, 2 = arithmetic, 3 = a second, different attribute first)
 //!   pipe     : name:dflt|-:entry indices[:opts]   opts: gs<k> (graphics state property set k), de (DefaultBindGroup
@@ -96,6 +96,8 @@ pub struct XFn {
     pub inits: Vec<usize>,
     /// entries: spelling of numthreads
     pub nt: u32,
+    /// a forward declaration precedes all function definitions
+    pub fd: bool,
 }
 
 #[derive(Clone, Debug, Default)]
@@ -277,6 +279,9 @@ impl Case {
                 if !h.dflt.is_empty() {
                     o.push(format!("d{}", join_idx(&h.dflt)));
                 }
+                if h.fd {
+                    o.push("fd".to_string());
+                }
                 with_opts(base, o)
             })
             .collect();
@@ -299,6 +304,9 @@ impl Case {
                 }
                 if e.nt != 0 {
                     o.push(format!("nt{}", e.nt));
+                }
+                if e.fd {
+                    o.push("fd".to_string());
                 }
                 with_opts(base, o)
             })
@@ -436,9 +444,14 @@ impl Case {
             for o in opts(&p, 4)? {
                 match o.as_str() {
                     "r" => h.ret = true,
+                    "fd" => h.fd = true,
                     s if s.starts_with('d') => h.dflt = idx(&s[1..])?,
                     _ => return None,
                 }
+            }
+            // default values written on a forward declaration are lost by the compiler (seen, not C05's): keep the two apart
+            if h.fd && !h.dflt.is_empty() {
+                return None;
             }
             helpers.push(h);
         }
@@ -471,6 +484,7 @@ impl Case {
             };
             for o in opts(&p, 6)? {
                 match o.as_str() {
+                    "fd" => e.fd = true,
                     s if s.starts_with("nt") => e.nt = s[2..].parse().ok()?,
                     s if s.starts_with('i') => e.inits = idx(&s[1..])?,
                     _ => return None,
@@ -715,16 +729,60 @@ impl Case {
         for (i, r) in self.res.iter().enumerate() {
             self.render_resource(i, r, &mut s);
         }
-        for (i, h) in self.helpers.iter().enumerate() {
+        let helper_sig = |i: usize, h: &XFn, with_defaults: bool| -> String {
             let mut params: Vec<String> = (0..self.overload_arity(i)).map(|k| format!("int p{}", k)).collect();
             for (j, r) in h.dflt.iter().enumerate() {
-                params.push(format!("int d{} = {}", j, self.value_expr(*r).unwrap_or_else(|| "0".into())));
+                if with_defaults {
+                    params.push(format!("int d{} = {}", j, self.value_expr(*r).unwrap_or_else(|| "0".into())));
+                } else {
+                    params.push(format!("int d{}", j));
+                }
             }
+            format!("{} {}({})", if h.ret { "int" } else { "void" }, h.name, params.join(", "))
+        };
+        // a mesh entry takes a payload when some pipeline pairs it with a task shader
+        let with_payload: BTreeSet<usize> = self
+            .pipes
+            .iter()
+            .filter(|p| p.stages.iter().any(|k| self.entries[*k].stage.as_deref() == Some("Task")))
+            .flat_map(|p| p.stages.iter().copied())
+            .collect();
+        // (attributes, signature, statements after the generated body)
+        let entry_sig = |k: usize| -> (String, String, &'static str) {
+            let e = &self.entries[k];
+            let n = &e.name;
+            let nt = self.numthreads_attr(k, e);
+            match e.stage.as_deref().unwrap_or("") {
+                "Compute" => (nt, format!("void {}(uint3 dtid : SV_DispatchThreadID)", n), ""),
+                "Vertex" => (nt, format!("void {}(uint vid : SV_VertexID, out float4 o_pos : SV_Position)", n), "    o_pos = float4(0, 0, 0, 1);\n"),
+                "Pixel" => (nt, format!("float4 {}(float4 i_pos : SV_Position) : SV_Target0", n), "    return float4(0, 0, 0, 0);\n"),
+                "Task" => (nt, format!("void {}(uint3 dtid : SV_DispatchThreadID)", n), "    lds_payload.start_location = dtid.x;\n    DispatchMesh(4u, 1u, 1u, lds_payload);\n"),
+                _ => {
+                    let payload = if with_payload.contains(&k) { "    in payload TaskPayload data,\n" } else { "" };
+                    (
+                        format!("{}[outputtopology(\"triangle\")]\n", nt),
+                        format!("void {}(\n    uint3 dtid : SV_DispatchThreadID,\n{}    out vertices MeshVertex o_vertices[64],\n    out indices uint3 o_triangles[64]\n)", n, payload),
+                        "    SetMeshOutputCounts(64, 64);\n    MeshVertex vertex;\n    vertex.position = float4(0, 0, 0, 1);\n    o_vertices[dtid.x] = vertex;\n    o_triangles[dtid.x] = uint3(0, 1, 2);\n",
+                    )
+                }
+            }
+        };
+        // forward declarations
+        for (i, h) in self.helpers.iter().enumerate() {
+            if h.fd {
+                s.push_str(&format!("{};\n", helper_sig(i, h, true)));
+            }
+        }
+        for k in 0..self.entries.len() {
+            if self.entries[k].fd {
+                let (attrs, sig, _) = entry_sig(k);
+                s.push_str(&format!("{}{};\n", attrs, sig));
+            }
+        }
+        for (i, h) in self.helpers.iter().enumerate() {
             s.push_str(&format!(
-                "{} {}({}) {{\n{}{}}}\n",
-                if h.ret { "int" } else { "void" },
-                h.name,
-                params.join(", "),
+                "{} {{\n{}{}}}\n",
+                helper_sig(i, h, !h.fd),
                 self.body(h),
                 if h.ret { "    return 0;\n" } else { "" }
             ));
@@ -746,40 +804,9 @@ impl Case {
             }
             s.push_str(&format!("static int s_init{} = {};\n", k, terms.join(" + ")));
         }
-        // a mesh entry takes a payload when some pipeline pairs it with a task shader
-        let with_payload: BTreeSet<usize> = self
-            .pipes
-            .iter()
-            .filter(|p| p.stages.iter().any(|k| self.entries[*k].stage.as_deref() == Some("Task")))
-            .flat_map(|p| p.stages.iter().copied())
-            .collect();
         let emit_entry = |s: &mut String, k: usize| {
-            let e = &self.entries[k];
-            let b = self.body(e);
-            let n = &e.name;
-            let nt = self.numthreads_attr(k, e);
-            match e.stage.as_deref().unwrap_or("") {
-                "Compute" => s.push_str(&format!("{}void {}(uint3 dtid : SV_DispatchThreadID) {{\n{}}}\n", nt, n, b)),
-                "Vertex" => s.push_str(&format!(
-                    "{}void {}(uint vid : SV_VertexID, out float4 o_pos : SV_Position) {{\n{}    o_pos = float4(0, 0, 0, 1);\n}}\n",
-                    nt, n, b
-                )),
-                "Pixel" => s.push_str(&format!(
-                    "{}float4 {}(float4 i_pos : SV_Position) : SV_Target0 {{\n{}    return float4(0, 0, 0, 0);\n}}\n",
-                    nt, n, b
-                )),
-                "Task" => s.push_str(&format!(
-                    "{}void {}(uint3 dtid : SV_DispatchThreadID) {{\n{}    lds_payload.start_location = dtid.x;\n    DispatchMesh(4u, 1u, 1u, lds_payload);\n}}\n",
-                    nt, n, b
-                )),
-                _ => {
-                    let payload = if with_payload.contains(&k) { "    in payload TaskPayload data,\n" } else { "" };
-                    s.push_str(&format!(
-                        "{}[outputtopology(\"triangle\")]\nvoid {}(\n    uint3 dtid : SV_DispatchThreadID,\n{}    out vertices MeshVertex o_vertices[64],\n    out indices uint3 o_triangles[64]\n) {{\n{}    SetMeshOutputCounts(64, 64);\n    MeshVertex vertex;\n    vertex.position = float4(0, 0, 0, 1);\n    o_vertices[dtid.x] = vertex;\n    o_triangles[dtid.x] = uint3(0, 1, 2);\n}}\n",
-                        nt, n, payload, b
-                    ));
-                }
-            }
+            let (attrs, sig, tail) = entry_sig(k);
+            s.push_str(&format!("{}{} {{\n{}{}}}\n", attrs, sig, self.body(&self.entries[k]), tail));
         };
         let emit_pipe = |s: &mut String, pipe: &XPipe| {
             s.push_str(&format!("Pipeline {}\n{{\n", pipe.name));
